@@ -93,7 +93,9 @@ def _remove_trailing(children):
 def _valid_child_name(child_name, expected_parent):
     try:
         parent, index = child_name.rsplit('_', 1)
-        int(index)
+        # positions are written in plain decimal and count from 1 (ZXX_01, ZXX_+1 and ZXX_0 are no positions)
+        if str(int(index)) != index or int(index) < 1:
+            return False
     except (ValueError, AttributeError):
         return False
     else:
@@ -114,7 +116,7 @@ def _valid_z_segment_name(name):
 
 
 def _valid_z_field_name(name):
-    regex = r'^z[a-z1-9]{2}_\d+$'
+    regex = r'^z[a-z0-9]{2}_[1-9]\d*$'
     return re.match(regex, name, re.IGNORECASE) is not None
 
 
